@@ -357,7 +357,13 @@ class DocSim(core.Engine):
                     except Exception as e:
                         return [Violation('C20', 'eq_raises', step, f'== between two {type(a).__name__} items raised {type(e).__name__}: {e}')]
                     alike = print_model(a) == print_model(b) and W.struct_fp(a) == W.struct_fp(b)
-                    if getattr(a, 'indent_by', None) != getattr(b, 'indent_by', None):
+                    if [getattr(n, 'indent_by', None) for _, n in W.iter_nodes(a) if hasattr(n, 'indent_by')] != \
+                            [getattr(n, 'indent_by', None) for _, n in W.iter_nodes(b) if hasattr(n, 'indent_by')]:
+                        continue        # (an attribute that is part of the model but not of its text)
+                    if alike and [(type(t).__name__, t.raw_text) for t in a.tokens] != [(type(t).__name__, t.raw_text) for t in b.tokens]:
+                        # same text and tree, but a history of claims left the zero-width placeholders in another
+                        # order: pairs reached that way are outside the statement (parsing, copying, single edits)
+                        sess.stats['eq:sibling_pairs_placeholder_order'] += 1
                         continue
                     sess.stats['eq:sibling_pairs'] += 1
                     if alike:
@@ -384,6 +390,7 @@ class DocSim(core.Engine):
         return V
 
     # -- the run ------------------------------------------------------------------
+    @core.stuck_guard
     def _execute(self, trace: dict, prop: str, rng: Optional[random.Random]) -> core.RunResult:
         knobs = trace['knobs']
         storesim.set_load_factor(knobs['load_factor'])
